@@ -174,3 +174,11 @@ mod test {
     assert_eq!(node.expect("should exist").text(), "'🦄'");
   }
 }
+
+#[cfg(feature = "verif-hooks")]
+impl<L: Language> RangeMatcher<L> {
+  /// verification hook: (start line, start column, end line, end column)
+  pub fn verif_parts(&self) -> (usize, usize, usize, usize) {
+    (self.start.line, self.start.column, self.end.line, self.end.column)
+  }
+}
